@@ -19,9 +19,9 @@ vars == <<cs, pc, pre, run>>
 
 Ids == {1, 2}
 ASets == << {}, {1}, {2}, {1, 2} >>
-NM == << <<"r1", "r1x">>, <<"r2", "r2x">> >>                       \* name, name after a rename
+NM == << <<"r1", "r1x">>, <<"a2", "a2x">> >>                       \* name, name after a rename
 FN == << << <<"r1.0", "r1.1">>, <<"r1x.0", "r1x.1">> >>,
-         << <<"r2.0", "r2.1">>, <<"r2x.0", "r2x.1">> >> >>
+         << <<"a2.0", "a2.1">>, <<"a2x.0", "a2x.1">> >> >>
 IdxMt == -5
 
 Simple(l, r, x, k, mt) == [l |-> l, f |-> FN[r][x][k], mt |-> mt, mf |-> FALSE,
